@@ -137,6 +137,7 @@ def check(ctx) -> None:
     r24(ctx)
     r25(ctx)
     r26(ctx)
+    r27(ctx)
 
 
 def r21(ctx, cls) -> None:
@@ -475,3 +476,59 @@ def r26(ctx) -> None:
     R.check(ok, f, f.node, 'update_selected passes the complete listing',
             f'{why}: set_messages treats every UID missing from its '
             f'argument as expunged')
+
+
+def r27(ctx) -> None:
+    R = ctx.rule('R2.7', 'flag-key index mirrors the per-UID map', 3)
+    sm = ctx.proj.cls(SEL, 'SynchronizedMessages')
+    n = 0
+    for fs in sm.methods.values():
+        for f in fs:
+            if f.name == '__init__':
+                continue
+            # names bound from a READ of the map (the value being replaced)
+            old_names = set()
+            for nm in {x.id for x in walk_local(f.node)
+                       if isinstance(x, ast.Name)}:
+                for _, v in local_assigns(f, nm):
+                    if v is None:
+                        continue
+                    t = txt(v)
+                    if t.startswith('self._flags_key_map.get(') or \
+                            t.startswith('self._flags_key_map[') or \
+                            t.startswith('self._flags_key_map.pop('):
+                        old_names.add(nm)
+            for c in calls_in(f.node):
+                if not (isinstance(c.func, ast.Attribute)
+                        and is_attr(c.func.value, '_flags_key_set', 'self')
+                        and c.args):
+                    continue
+                arg = txt(c.args[0])
+                if c.func.attr in ('discard', 'remove'):
+                    n += 1
+                    R.check(arg in old_names or arg.startswith(
+                        'self._flags_key_map'), f, c,
+                            f'{f.qualname}: {c.func.attr}({arg}) removes the '
+                            f'key previously stored in the map',
+                            f'`{arg}` is not the value read from '
+                            f'_flags_key_map for this UID: the stale '
+                            f'(uid, flags) key stays in the index, so a '
+                            f'change BACK to an earlier flag combination is '
+                            f'never reported (B +FLAGS x; A NOOP; B -FLAGS '
+                            f'x; A NOOP gets nothing)')
+                elif c.func.attr == 'add':
+                    n += 1
+                    stored = [s_ for s_ in walk_local(f.node)
+                              if isinstance(s_, ast.Assign) and any(
+                                  isinstance(t, ast.Subscript)
+                                  and is_attr(t.value, '_flags_key_map',
+                                              'self') for t in s_.targets)
+                              and txt(s_.value) == arg]
+                    R.check(bool(stored), f, c,
+                            f'{f.qualname}: add({arg}) mirrors a store into '
+                            f'the map',
+                            f'`{arg}` is added to the index but is not what '
+                            f'is stored in _flags_key_map')
+    if n == 0:
+        R.fail(None, None, 'flag-key index is maintained',
+               'no discard/add on _flags_key_set found')
